@@ -331,7 +331,7 @@ Definition results_len_ok (m : mntm) : bool :=
 Lemma valid_tapes_eq m : valid_tapes m = Nat.leb 1 (mt_n m) && results_len_ok m.
 Proof. reflexivity. Qed.
 
-Lemma valid_mntm_eq Q I T m : valid_mntm m = finals_no_rows (raw_of_mntm Q I T m) && alts_nonempty m.
+Lemma valid_mntm_eq Q I T m : valid_mntm m = finals_no_rows (raw_of_mntm Q I T m).
 Proof. rewrite finals_no_rows_mntm. reflexivity. Qed.
 
 Lemma tapes_consistent_embed Q I T m :
@@ -372,10 +372,10 @@ Proof.
 Qed.
 
 (* valid_mntm and valid_tapes (the hypotheses of C03 / C17) = the constructor accepts, given the side
-   conditions: at least one alternative per entry and at least one tape (which validate() does
-   not check) on one side; one key component per tape and the rules about Q, I, T on the other *)
+   conditions: at least one tape (which validate() does not check) on one side; one key component
+   per tape and the rules about Q, I, T on the other *)
 Theorem valid_mntm_agrees Q I T m :
-  (mntm_validate (mt_n m) (raw_of_mntm Q I T m) = Ok tt /\ alts_nonempty m = true /\ 1 <= mt_n m) <->
+  (mntm_validate (mt_n m) (raw_of_mntm Q I T m) = Ok tt /\ 1 <= mt_n m) <->
   (valid_mntm m = true /\ valid_tapes m = true /\ keys_len_ok m = true /\ tm_sets_ok (raw_of_mntm Q I T m)).
 Proof.
   rewrite mntm_validate_embed, (valid_mntm_eq Q I T m), valid_tapes_eq.
